@@ -7,6 +7,8 @@ a simulated/adversarial RNG; scale-and-discretise.
 """
 import copy
 import random
+
+import numpy as np
 from collections import Counter
 
 from ..simkit import gen
@@ -49,7 +51,7 @@ class World:
         "the arithmetic helpers are pure; they are covered because the pipelines run through them, with boundary-biased requests rather than an exhaustive sweep",
     ]
     PROBES_EXPECTED = ["expand-multi-copy", "expand-exact-multiple", "expand-max-1", "batches-multi", "batch-uneven-last", "over-delivery",
-                       "peer-fault", "represent-topup", "represent-eliminate", "represent-exact", "discretise", "combine-counts", "combine-bitstrings",
+                       "peer-fault", "represent-topup", "represent-eliminate", "represent-exact", "discretise", "discretise-container-reused", "combine-counts", "combine-bitstrings",
                        "single-circuit", "adversarial-rng", "combine-aliased-records", "foreign-circuits", "represent-eliminate-many"]
 
     def gen_plan(self, seed, tier):
@@ -129,7 +131,10 @@ class World:
                     ws = [r.choice([0.5, 1.5, 2.5, 0.25, 0.75, 1.0]) for _ in range(m)]
                     ws.append((-sum(ws)) % 1 or 1.0)
                     total = int(round(sum(ws)))
-                s = {"op": "discretise", "args": {"weights": ws, "total": total}}
+                # the weights live in a caller-owned container (list / tuple / numpy array) that the same client may hand
+                # to several calls with different totals: every call must be answered from the ORIGINAL weights
+                s = {"op": "discretise", "args": {"weights": ws, "total": total, "as": r.choice(["list", "list", "tuple", "f64", "f64", "i64"]),
+                                                  "slot": r.randrange(3), "reuse": r.random() < 0.6}}
             s["client"] = r.randrange(cfg["clients"])
             s["rs"] = r.getrandbits(32)
             steps.append(s)
@@ -348,7 +353,19 @@ class World:
         from orquestra.quantum.utils import scale_and_discretize
 
         ws, total = list(a["weights"]), a["total"]
-        ok, res = call(scale_and_discretize, list(ws), total)
+        kind = a.get("as", "list")
+        if kind == "i64":
+            ws = [max(1, int(round(w))) for w in ws]
+        held = st.setdefault("wpool", {}).get(a.get("slot"))
+        if a.get("reuse") and held is not None:
+            box, ws = held  # the very container an earlier call was given, and the weights it was created with
+            ctx.probe("discretise-container-reused")
+            ctx.nontrivial = True
+        else:
+            box = {"list": list, "tuple": tuple, "f64": lambda w: np.array(w, dtype=np.float64),
+                   "i64": lambda w: np.array(w, dtype=np.int64)}[kind](ws)
+            st["wpool"][a.get("slot")] = (box, list(ws))
+        ok, res = call(scale_and_discretize, box, total)
         ctx.called("scale_and_discretize")
         ctx.check(ok, "unexpected-reject", "discretise", lambda: f"scale_and_discretize({ws}, {total}) raised {type(res).__name__}: {res}")
         with judge(ctx):
